@@ -373,7 +373,7 @@ class Module(metaclass=ModuleMeta):
                     self.index or 0, self.mtype, name, evalue, emin, emax
                 ),
             )
-            value = raw_value
+            value = from_raw_value(raw_value)
         self.controller_values[name] = value
 
     def propagate_down(self, controller_name, value):
